@@ -202,5 +202,5 @@ def run(repo, seed, tier):
                     'imports with non-ASCII identifiers, package with re-export and alias, for/with/except/comprehension '
                     'targets) x every listed identifier x its token occurrences; rename to a fresh name, apply, run, '
                     'rename back' % len(PROGRAMS),
-            'samples': samples, 'violations': [v[0] for v in seen.values()][:10],
+            'samples': samples, 'violations': violations[:300],
             'violation_counts': {k: len(v) for k, v in seen.items()}}
